@@ -152,7 +152,12 @@ CLAIMS = [
                 "touch a bucket; the owner cannot release between a change of the table's shape and the counter bump, so parked operations fail "
                 "validation and restart; growth keeps ownership; only an owner resizes. The section's own operations refine the map (C02: lockTable, "
                 "ltInsert, ltErase, rehash/reserve in locked mode, clear; C12: stream extraction). K3 programs park other threads at every "
-                "synchronisation point while the section inserts with growth, rehashes up and down, clears, and replaces the table by stream extraction.",
+                "synchronisation point while the section inserts with growth, rehashes up and down, clears, and replaces the table by stream extraction. "
+                "Props/C06Conc.lean: schedules of ordinary critical sections (any calls, any stale data) AND whole locked sections (lock_table, any "
+                "operations through the locked_table, unlock — one atomic step, justified by the ownership theorems): locked_section_atomic, "
+                "locked_section_ends_unlocked, conc_with_sections_linearizable — every such interleaving is linearizable, each section a contiguous "
+                "block answering as the sequential specification, later operations starting from exactly the map it left. K2 locked-section streams "
+                "(lock probes of every array after lock / unlock / move assignment of a locked_table onto an active one) belong to this check too.",
         "design_ref": "DESIGN.md 6/C06, 12",
         "note": "Trusted as for C01.",
     },
